@@ -3,9 +3,9 @@ CONSTANTS
   Threads = {t1, t2, t3}
   Keys = {k1, k2}
   MaxCalls = 2
-  Torn = TRUE
+  Torn = FALSE
   UseOnce = TRUE
-  FastPath = FALSE
+  FastPath = TRUE
 INVARIANT BuiltOnce NoTorn SameObject OnceProtects
 PROPERTY AllReturn
 CHECK_DEADLOCK FALSE
